@@ -190,7 +190,7 @@ func (p *parser) expr(minPrec int) (*Expr, error) {
 
 func (p *parser) unary() (*Expr, error) {
 	t := p.peek()
-	if t.kind == "op" && (t.val == "!" || t.val == "-") {
+	if t.kind == "op" && (t.val == "!" || t.val == "-" || t.val == "*") {
 		p.next()
 		e, err := p.unary()
 		if err != nil {
